@@ -23,6 +23,9 @@ type c09Case struct {
 	Names  map[string]string   `json:"names,omitempty"`
 	Values map[string]model.AV `json:"values,omitempty"`
 	API    bool                `json:"api,omitempty"`
+	// Warm: an expression evaluated first in the same process (whatever state
+	// the implementation keeps between evaluations must not change the verdict)
+	Warm string `json:"warm,omitempty"`
 }
 
 // fixed bindings and items for raw / fuzzed strings
@@ -84,6 +87,14 @@ func runC09(c c09Case, info *c09Info) *failure {
 	}
 	if perr != nil {
 		info.refRejects, info.reason = true, perr.Reason
+	}
+	if c.Warm != "" && len(c.Items) > 0 {
+		wc := exprCase{Expr: c.Warm, Item: model.CloneItem(c.Items[len(c.Items)-1]), Names: c.Names, Values: c.Values}
+		if c.Kind == "cond" {
+			implMatch(wc)
+		} else {
+			implUpdate(wc)
+		}
 	}
 	for i, item := range c.Items {
 		ec := exprCase{Expr: c.Expr, Item: model.CloneItem(item), Names: c.Names, Values: c.Values}
@@ -255,9 +266,9 @@ var hostileConstants = []string{
 func drawC09(rt *rapid.T) (c09Case, string) {
 	kind := rapid.SampledFrom([]string{"cond", "cond", "update"}).Draw(rt, "kind")
 	c := c09Case{Kind: kind, Items: c09Items, Names: c09Names, Values: c09Values}
-	mode := rapid.SampledFrom([]string{"mutation", "mutation", "mutation", "valid", "fragments", "constant", "bytes"}).Draw(rt, "mode")
+	mode := rapid.SampledFrom([]string{"mutation", "mutation", "mutation", "valid", "fragments", "constant", "bytes", "dirty-twin", "repeat"}).Draw(rt, "mode")
 	switch mode {
-	case "mutation", "valid":
+	case "mutation", "valid", "dirty-twin", "repeat":
 		o := avOpts(2, false)
 		it := richItem(rt, o)
 		ctx := gen.NewExprCtx(it, o)
@@ -277,6 +288,22 @@ func drawC09(rt *rapid.T) (c09Case, string) {
 					text = strings.ReplaceAll(text, " "+kw+" ", " "+strings.ToLower(kw)+" ")
 				}
 			}
+		}
+		switch mode {
+		case "dirty-twin":
+			// the valid expression first, then a twin in which one separator is
+			// a byte sequence some libraries treat as white space
+			c.Warm = text
+			toks := model.TokenTexts(text)
+			if len(toks) > 1 {
+				pos := rapid.IntRange(1, len(toks)-1).Draw(rt, "dirtyPos")
+				ws := rapid.SampledFrom([]string{"\v", "\f", "\u00a0", "\u2003", "\u3000", "\u0085", "\x1f", " \v "}).Draw(rt, "dirtyWS")
+				text = strings.Join(toks[:pos], " ") + ws + strings.Join(toks[pos:], " ")
+			}
+		case "repeat":
+			// a malformed expression evaluated twice in one process
+			text = mutateExpr(rt, text)
+			c.Warm = text
 		}
 		c.Expr = text
 		c.Names, c.Values = ctx.Names, ctx.Values
@@ -300,7 +327,7 @@ func drawC09(rt *rapid.T) (c09Case, string) {
 	return c, mode
 }
 
-const ruleC09 = "rapid: expression strings for the condition and the update grammar - (a) one or two token-level mutations (drop, duplicate, replace, swap a token, append/prepend an operator, lower-case the keywords) of valid generated expressions, (b) random sequences of grammar fragments, (c) hostile constants (juxtaposed clauses, unbalanced and 2000-deep parentheses, 4096-byte inputs, wrong arities, bare literals, illegal bytes), (d) raw bytes; each evaluated with interpreter.Language.Match / Update against 3-4 items under a watchdog. Oracle: totality (no runtime panic, returns within the watchdog), strictness (a string rejected by the liberal reference recogniser must be rejected; a string it accepts is either rejected or evaluates to exactly the reference value / item on every item; a rejected update leaves the item unchanged), and for a sample the client API on both SDK clients (error or documented panic, never success, state unchanged). Non-trivial = string of >= 3 tokens that the reference recogniser rejects, or accepts while the implementation evaluates it; distinct = hash of (kind, string)."
+const ruleC09 = "rapid: expression strings for the condition and the update grammar - (a) one or two token-level mutations (drop, duplicate, replace, swap a token, append/prepend an operator, lower-case the keywords) of valid generated expressions, (b) random sequences of grammar fragments, (c) hostile constants (juxtaposed clauses, unbalanced and 2000-deep parentheses, 4096-byte inputs, wrong arities, bare literals, illegal bytes), (d) raw bytes, (e) a valid expression followed by a twin whose separator is an exotic white-space byte sequence, and malformed expressions evaluated repeatedly in one process; each evaluated with interpreter.Language.Match / Update against 3-4 items under a watchdog. Oracle: totality (no runtime panic, returns within the watchdog), strictness (a string rejected by the liberal reference recogniser must be rejected; a string it accepts is either rejected or evaluates to exactly the reference value / item on every item; a rejected update leaves the item unchanged), and for a sample the client API on both SDK clients (error or documented panic, never success, state unchanged). Non-trivial = string of >= 3 tokens that the reference recogniser rejects, or accepts while the implementation evaluates it; distinct = hash of (kind, string)."
 
 // TestC09 decides property C09.
 func TestC09(t *testing.T) {
